@@ -658,3 +658,97 @@ Proof.
     + exfalso. apply Hq1. rewrite Hg by assumption. rewrite HFr by assumption. simpl.
       rewrite look_put_dir. apply not_prefix in Ep. rewrite eqb_if by (intro; subst; tauto). assumption.
 Qed.
+
+(* ------------------------------------------------------------------ (1) inputs untouched *)
+Theorem tracker_inputs_untouched_some : forall f0 d n0 mid p c,
+  wf f0 -> look f0 d = Dir -> look f0 (d ++ [n0]) = Absent -> forallb mid_op mid = true ->
+  writes_ok (start f0) [] (Create (Some d) n0 :: mid) = true ->
+  look f0 p = File c ->
+  look (s_fs (alive f0 (Some d) n0 mid)) p = File c /\
+  look (s_fs (life f0 (Some d) n0 mid)) p = File c.
+Proof.
+  intros f0 d n0 mid p c W HD HA Hm Hw Hp.
+  assert (Hout : is_prefix (d ++ [n0]) p = false).
+  { destruct (is_prefix (d ++ [n0]) p) eqn:E; [|reflexivity].
+    rewrite (wf_under_absent f0 _ p W HA E) in Hp. discriminate. }
+  destruct (alive_Rw f0 d n0 mid W HD HA Hm Hw) as [H' [HI [_ [HFr HOa]]]].
+  assert (H1 : look (s_fs (alive f0 (Some d) n0 mid)) p = File c).
+  { rewrite HFr by assumption. simpl. rewrite look_put_dir.
+    apply not_prefix in Hout. rewrite eqb_if by (intro; subst; tauto). assumption. }
+  split; [assumption|].
+  destruct (del_spec _ _ HI) as [t [g [h [Ht [Hc [Hs [Hh [Hg _]]]]]]]].
+  rewrite life_alive, Hs. simpl. rewrite Hh, Hout, Hg; [assumption|].
+  intro Hi. assert (X := HOa p). unfold outs_of in X. rewrite Ht in X. specialize (X Hi Hout).
+  simpl in X. rewrite look_put_dir in X. apply not_prefix in Hout.
+  rewrite eqb_if in X by (intro; subst; tauto). congruence.
+Qed.
+
+(* without a temp directory the tracker does nothing to the file system *)
+Definition NoneInv (s : state) : Prop :=
+  exists t, s_tr s = Some t /\ t_tmp t = None /\ t_out t = [] /\
+            forall k l, dget (t_loc t) k = Some l -> l = k.
+
+Lemma step_none : forall s o s' x,
+  NoneInv s -> mid_op o = true -> step s o = (s', x) ->
+  NoneInv s' /\
+  (forall q, writes_to q o = false -> look (s_fs s') q = look (s_fs s) q) /\
+  (forall p l, o = RealLocation p -> x = OLoc l -> l = p).
+Proof.
+  intros s o s' x [t [Ht [HT [HO HL]]]] Hm Hs.
+  destruct o as [tmp nm|p io n|p|p|p c|]; try discriminate; simpl in Hs.
+  - rewrite Ht in Hs. unfold add_file in Hs.
+    destruct (negb (add_check (s_fs s) p io =? 0)).
+    + inversion Hs; subst. split; [exists t; auto|]. split; [reflexivity|]. intros; discriminate.
+    + rewrite HT in Hs. inversion Hs; subst. simpl. split; [|split; [reflexivity | intros; discriminate]].
+      eexists. split; [reflexivity|]. simpl. split; [assumption|]. split; [assumption|].
+      intros k l Hk. rewrite dget_dset in Hk. destruct (path_eqb p k) eqn:E; [|auto].
+      apply path_eqb_eq in E. congruence.
+  - rewrite Ht in Hs. inversion Hs; subst. split; [exists t; auto|]. split; [reflexivity|].
+    intros p' l Hp Hx. inversion Hp; subst p'. destruct (dget (t_loc t) p) eqn:E; inversion Hx; subst.
+    apply HL. assumption.
+  - rewrite Ht in Hs. inversion Hs; subst. split; [exists t; auto|]. split; [reflexivity|]. intros; discriminate.
+  - unfold write_to in Hs.
+    assert (X : forall g r, (g = s_fs s \/ g = put_file p c (s_fs s)) ->
+                ({| s_fs := g; s_tr := s_tr s |}, r) = (s', x) ->
+                NoneInv s' /\ (forall q, writes_to q (WriteTo p c) = false -> look (s_fs s') q = look (s_fs s) q) /\
+                (forall p0 l, WriteTo p c = RealLocation p0 -> x = OLoc l -> l = p0)).
+    { intros g r Hg H. inversion H; subst s' x. simpl. split; [exists t; auto|]. split; [|intros; discriminate].
+      intros q Hq. simpl in Hq. destruct Hg as [Hg|Hg]; subst g; [reflexivity|].
+      rewrite look_put_file, Hq. reflexivity. }
+    assert (Y : forall g r, (g = s_fs s \/ g = put_file p c (s_fs s)) ->
+                (let '(g0, r0) := (g, r) in ({| s_fs := g0; s_tr := s_tr s |}, r0)) = (s', x) ->
+                NoneInv s' /\ (forall q, writes_to q (WriteTo p c) = false -> look (s_fs s') q = look (s_fs s) q) /\
+                (forall p0 l, WriteTo p c = RealLocation p0 -> x = OLoc l -> l = p0)) by exact X.
+    destruct (look (s_fs s) p); [|exact (Y _ _ (or_introl eq_refl) Hs)|];
+      destruct (n_is_dir (look (s_fs s) (parent p)));
+      first [exact (Y _ _ (or_introl eq_refl) Hs) | exact (Y _ _ (or_intror eq_refl) Hs)].
+Qed.
+
+Theorem tracker_inputs_untouched_none : forall f0 n0 mid q,
+  forallb mid_op mid = true ->
+  forallb (fun o => negb (writes_to q o)) mid = true ->
+  look (s_fs (alive f0 None n0 mid)) q = look f0 q /\
+  look (s_fs (life f0 None n0 mid)) q = look f0 q /\
+  snd (step (alive f0 None n0 mid) Del) = OOk /\
+  (forall p l, snd (step (alive f0 None n0 mid) (RealLocation p)) = OLoc l -> l = p).
+Proof.
+  intros f0 n0 mid q Hm Hw.
+  assert (H : NoneInv (alive f0 None n0 mid) /\ look (s_fs (alive f0 None n0 mid)) q = look f0 q).
+  { unfold alive. rewrite fst_run_cons. simpl.
+    apply (run_ind_p (fun o => mid_op o && negb (writes_to q o))
+             (fun s => NoneInv s /\ look (s_fs s) q = look f0 q)).
+    - intros s o s' x [HN HQ] Ho Hs. apply andb_true_iff in Ho. destruct Ho as [Ho1 Ho2].
+      apply negb_true_iff in Ho2. destruct (step_none s o s' x HN Ho1 Hs) as [A [B _]].
+      split; [assumption|]. rewrite B; assumption.
+    - clear -Hm Hw. induction mid as [|o r IH]; [reflexivity|]. simpl in *.
+      apply andb_true_iff in Hm. apply andb_true_iff in Hw. destruct Hm, Hw.
+      apply andb_true_iff. split; [apply andb_true_iff; split; assumption | auto].
+    - split; [|reflexivity]. eexists. split; [reflexivity|]. simpl. split; [reflexivity|]. split; [reflexivity|].
+      intros; discriminate. }
+  destruct H as [[t [Ht [HT [HO HL]]]] HQ]. split; [assumption|].
+  assert (Hd : step (alive f0 None n0 mid) Del = ({| s_fs := s_fs (alive f0 None n0 mid); s_tr := None |}, OOk)).
+  { simpl. rewrite Ht. unfold del. rewrite HO, HT. reflexivity. }
+  rewrite life_alive, Hd. simpl. split; [assumption|]. split; [reflexivity|].
+  intros p l Hx. simpl in Hx. rewrite Ht in Hx. simpl in Hx.
+  destruct (dget (t_loc t) p) eqn:E; inversion Hx; subst. apply HL. assumption.
+Qed.
